@@ -160,6 +160,16 @@ def h_multiindex(B, cls="EOF", p=2, k=2):
     # a later query of the fitted scores must still carry the fit-time labels
     sc = model.scores()
     B.check("scores() keep the training labels after transform of other data", list(sc["t2"].values) == list(X["t2"].values), str(list(sc["t2"].values)))
+    # ... and every later transform is labelled by ITS argument: the training data again, then a subset of it
+    tx = B.completes("transform(training data) after transform(other data) runs", lambda: model.transform(X))
+    if tx is not None:
+        B.check("transform(training data) after transform(other data): labelled by the data passed", list(tx["t1"].values) == list(X["t1"].values) and list(tx["t2"].values) == list(X["t2"].values), f"t1={list(tx['t1'].values)} t2={list(tx['t2'].values)}")
+        if set(tx.dims) == set(sc.dims) and tx.sizes == sc.sizes:
+            B.eq("transform(training data) after transform(other data) == scores()", tx, sc)
+    sub = X.isel(t2=slice(0, 1))
+    ts = B.completes("transform(subset of the training data) runs", lambda: model.transform(sub))
+    if ts is not None:
+        B.check("transform(subset): labelled by the subset", list(ts["t2"].values) == list(sub["t2"].values) and list(ts["t1"].values) == list(sub["t1"].values), f"t1={list(ts['t1'].values)} t2={list(ts['t2'].values)}")
 
 
 def h_cross(B, cls="CPCCA", n=4, p=2, q=2, k=2, m=3, labels="disjoint", alpha=1.0, use_pca=False, rot=None, normalized=False):
